@@ -619,6 +619,9 @@ func (e *Exec) execBlock(b *ssa.BasicBlock, s *State) []exitEdge {
 		case *ssa.Jump:
 			return []exitEdge{{b.Succs[0], s}}
 		case *ssa.Return:
+			if specs := e.siteAsserts[ins]; len(specs) > 0 {
+				e.runSiteSpecs(s, ins, specs, true)
+			}
 			var vals []Value
 			for _, r := range x.Results {
 				vals = append(vals, e.val(s, r))
@@ -860,6 +863,7 @@ func (e *Exec) execInstr(s *State, ins ssa.Instruction) {
 		}
 		s.defers = append(s.defers, deferred{instr: x, args: args, fnv: fv})
 	case *ssa.RunDefers:
+		// (site specs bound to this instruction — "before return" — have already run above)
 		ds := s.defers
 		s.defers = nil
 		for i := len(ds) - 1; i >= 0; i-- {
@@ -953,6 +957,7 @@ func (e *Exec) unop(s *State, x *ssa.UnOp) Value {
 		t := x.X.Type().Underlying().(*types.Chan).Elem()
 		v := e.freshValue(s, "recv", t)
 		e.assumeValInv(s, v, t)
+		e.assumeChanInv(s, x.X, v)
 		if x.CommaOk {
 			return &TupleV{E: []Value{v, TS.Fresh("recvok", "Bool")}}
 		}
@@ -1288,6 +1293,7 @@ func (e *Exec) makeSlice(s *State, x *ssa.MakeSlice) Value {
 	if e.safety {
 		e.addObl(s, e.oblName("safety/makeslice"), "safety", And(e.ile(e.idx(0), l), e.ile(l, c)), x.Pos(), "makeslice: len out of range")
 	}
+	s.assume(e.ile(c, e.idxBig(maxLen))) // an allocation that returned has at most 2^48 elements (runtime limit)
 	e.allocSite(s, x, c, x.Type().Underlying().(*types.Slice).Elem())
 	r := e.newRef(s)
 	et := x.Type().Underlying().(*types.Slice).Elem()
